@@ -9,8 +9,10 @@ C++ IS WRITTEN, with explicit index loops over `Array`:
   src/corecel/grid/NonuniformGrid.hh                         (find: index logic only)
 
 Iterators are modelled as indices into one array (`first = 0`, `last = a.size` unless a loop
-takes them explicitly).  Elements are read with `a[i]!`; all reachable reads are in bounds
-(proved as part of the specifications in Lemmas/Algo*.lean).  Loops whose C++ termination
+takes them explicitly).  Elements are read with `a[i]!` (an out-of-range read would give
+`default`; under the stated preconditions the loops only read inside the range — the theorems
+are stated for in-range indices and the real code is additionally run under ASan/UBSan by the
+thorough tier of tools/checks/c18.py).  Loops whose C++ termination
 argument is a strictly decreasing distance use well-founded recursion on that distance;
 loops that only terminate because of an invariant (`first != last` tests) use an explicit
 fuel / structural counter, noted at each definition.  No Mathlib.
